@@ -8,7 +8,9 @@ MCAllDgrams == AllDgrams
 MCDev1 == DevDgrams(1)
 MCDev2 == DevDgrams(2)
 MCLiveD == {d \in DevDgrams(1) : d.wf \in {"yes", "badRdata"} /\ d.qm \in {"same", "different"} /\ d.src \in {"dest", "otherAddr"}}
-MCConfigsFull == ConfigsOver({"udp", "recv", "fallback"}, {0, 3, 5}, BOOLEAN, {"v4", "v6"})
+MCConfigsFull0 == ConfigsOver({"udp", "recv", "fallback"}, {0, 3, 5}, BOOLEAN, {"v4", "v6"})
+MCConfigsFull == MCConfigsFull0 \cup ZeroTimeouts({c \in MCConfigsFull0 : c.fam = "v4" /\ ~c.mcast})
 MCConfigsStatic == ConfigsOver({"udp", "recv", "fallback"}, {0}, BOOLEAN, {"v6"})
-MCConfigsLive == {c \in ConfigsOver({"udp", "recv"}, {0, 3}, {FALSE}, {"v6"}) : c.it /\ ~c.anysrc /\ c.hasq}
+MCConfigsLive0 == {c \in ConfigsOver({"udp", "recv"}, {0, 3}, {FALSE}, {"v6"}) : c.it /\ ~c.anysrc /\ c.hasq}
+MCConfigsLive == MCConfigsLive0 \cup ZeroTimeouts(MCConfigsLive0)
 =============================================================================
